@@ -259,6 +259,11 @@ impl Rig {
     pub fn take_control(&mut self) {
         self.ctl.take_control().expect("take_control");
     }
+    /// move the rig's (and the clock's) notion of "now" forward
+    pub fn advance_seconds(&mut self, secs: u64) {
+        self.time = self.time.wrapping_add(secs << 32);
+        self.clock.set_now(self.time);
+    }
     pub fn add(&mut self, s: &Syn) {
         let id = hook::clock_id(s.id);
         if s.one_way {
